@@ -299,6 +299,27 @@ def lifecycle(rep, u, vals):
                 "it is given the buffer %s and the length %s: a transfer longer than the window reaches bytes the caller did not offer and the reported "
                 "size exceeds what was asked for" % (bk[:50], lk[:50]), c.get("ln"))
     rep.floor("transfer system calls on the task buffer", nio, 4)
+    # the saturating cursor updates (IO_BUF_*_INC): a cursor that would pass the end stops at the buffer's capacity (->size),
+    # not at another cursor (->used ends the *data*, and a receive window may lie above it)
+    nsat = 0
+    for fc in u.function_list:
+        if fc.relfile() != tp.TASK_C or not fc.has_cfg:
+            continue
+        per = 0
+        for pos, root, x, ps in fc.nodes():
+            if not (x.get("k") == "bin" and x["op"] == "="):
+                continue
+            l, r = core.strip_casts(x["x"]), core.strip_casts(x["y"])
+            if l.get("k") == "mem" and l.get("f") in ("offset", "used", "transfer_size") and r.get("k") == "mem" and \
+                    key(core.strip_casts(l["b"])) == key(core.strip_casts(r["b"])) and l.get("rec") == r.get("rec"):
+                nsat += 1
+                per += 1
+                rep.functions.add(fc.name)
+                ok = r.get("f") == "size"
+                (rep.proved if ok else rep.violated)(
+                    "R-SIB", fc, "cursor-saturation:%s#%d" % (l["f"], per), "%s: the cursor '%s' saturates at the buffer capacity" % (fc.name, l["f"]),
+                    "" if ok else "it is clamped to '%s': a window above that mark makes the cursor jump backwards after the first transfer" % r.get("f"), x.get("ln"))
+    rep.floor("saturating cursor updates", nsat, 3)
     fx = tp.need(u, "tp_task_start_ex")
     rep.functions.add(fx.name)
     direct = [pos for pos, root, c, ps in fx.calls({"tp_task_handler"})]
